@@ -30,6 +30,9 @@ func execDecode(a []string) string {
 	if a[0] == "mp" || a[0] == "mpbad" {
 		return execDecodeMP(a)
 	}
+	if a[0] == "xml" || a[0] == "xmlbad" {
+		return execDecodeXML(a)
+	}
 	if decodeWAF == nil {
 		w, err := coraza.NewWAF(coraza.NewWAFConfig().WithDirectives("SecRuleEngine On\nSecRequestBodyAccess On\n"))
 		if err != nil {
@@ -119,6 +122,10 @@ func init() {
 			}
 			if i%8 == 2 {
 				genDecodeMP(c)
+				continue
+			}
+			if i%8 == 6 {
+				genDecodeXML(c)
 				continue
 			}
 			kind := c.r.Pick("query", "query", "body", "cookie", "hdr")
